@@ -240,6 +240,20 @@ contract(
         "implies(d_exact(other) and whole_seconds(self) and dwhole(other)"
         " and self._second_of_minute is not None, whole_seconds(result))"],
     cases=add_cases() + nominal_cases(), merge=False, opaque=["dby"],
+    regions=[{
+        # KF-C01-1: 24:00 plus a Duration with no exact part returns a field-for-field
+        # copy (hour 24 kept): the general clause 0 <= h < 24 does not hold here, and
+        # callers (to_time_zone with an unchanged offset, str of a 24:00 point) rely on
+        # exactly this behaviour
+        "name": "24h-plus-zero",
+        "when": "(self._hour_of_day == 24 and d_days(other) == 0 and d_hours(other) == 0"
+                " and d_minutes(other) == 0 and d_seconds(other) == 0"
+                " and d_years(other) == 0 and d_months(other) == 0)"
+                " if classname(other) in ('Duration', 'TimeZone') else False",
+        "cases": r".*\+(exact|week|years)",
+        "ensures": ["fresh(result)", "tp_same_fields(result, self)",
+                    "result._num_expanded_year_digits == self._num_expanded_year_digits",
+                    "result._time_zone._unknown == self._time_zone._unknown"]}],
     note="exact durations (C01); nominal parts: C05 cases")
 
 
@@ -357,7 +371,12 @@ contract(
         "implies(time_normal(self), time_normal(result))",
         "implies(whole_seconds(self) and self._second_of_minute is not None,"
         " whole_seconds(result))",
-        "unchanged(self)", "unchanged(dest_time_zone)"],
+        "unchanged(self)", "unchanged(dest_time_zone)",
+        # re-expressing a 24:00 point in the offset it already has keeps it 24:00
+        # (what str() of such a point relies on)
+        "implies(self._hour_of_day == 24 and dest_time_zone._hours == self._time_zone._hours"
+        " and dest_time_zone._minutes == self._time_zone._minutes,"
+        " tp_same_date_time(result, self))"],
     cases=tz_cases() + [
         Case("unknown-dest", lambda E, st: {
             "self": mk_timepoint(E, st, "self", "cal", "hms"),
